@@ -101,7 +101,7 @@ AbsSum(v) == SumSeq([k \in 1..Len(v) |-> RAbs(v[k])])
 SqSum(v) == SumSeq([k \in 1..Len(v) |-> Mul(v[k], v[k])])
 IsSquare(n) == \E r \in 0..n : r * r = n
 ISqrt(n) == CHOOSE r \in 0..n : r * r = n
-RNorm(v) == LET q == SqSum(v) IN Q(ISqrt(q[1]), ISqrt(q[2]))      \* Pythagorean vectors only (Pythagorean)
+RNorm(v) == LET q == SqSum(v) IN Q(ISqrt(q[1]), ISqrt(q[2]))      \* Pythagorean vectors only (checked by StepLaws)
 AtLeast(st, ms) == IF Lt(st, ms) THEN ms ELSE st
 EffStep(s, sc, i) ==
     LET vec == VarVec(s.lay, s.x, VarOf(s.lay, i))
@@ -215,8 +215,9 @@ Candidates(b) ==
             {[b EXCEPT !.c1 = DenseComp(n, m, q), !.x = Point(b.lay, k, FALSE), !.pt = k] :
                 m \in DenseMs, q \in Seeds(n), k \in 1..3}
       [] b.fam = "sparse" ->
-            {[b EXCEPT !.c1 = SparseComp(sg[1], sg[2]), !.x = Point(b.lay, k, FALSE), !.pt = k] :
-                sg \in {<<Len(g), g>> : g \in SparsePats(n)}, k \in 1..3}
+            \* point 0 has no zero coordinate: a dynamic coloring samples the sparsity at the first point it sees
+            {[b EXCEPT !.c1 = SparseComp(sg[1], sg[2]), !.x = IF k = 0 THEN Point(b.lay, 1, TRUE) ELSE Point(b.lay, k, FALSE),
+                       !.pt = k] : sg \in {<<Len(g), g>> : g \in SparsePats(n)}, k \in 0..3}
       [] b.fam = "chainA" ->        \* quadratic then affine
             {[b EXCEPT !.c1 = DenseComp(n, w[1], q), !.c2 = AffComp(w[1], w[2], w[3]), !.d = w[4],
                        !.x = Point(b.lay, k, TRUE), !.pt = k] : q \in ChainSeeds(n), w \in ChainShapes, k \in 1..3}
